@@ -1122,6 +1122,100 @@ def density_oracles(ck, g, x, tag, rep, weighted=True):
         clear = (amb[:, -1] - (amb[:, -2] if k > 1 else 0)) > 1e-9 * amb[:, -1]
         if np.any((z != want) & clear):
             ck.fail("lifecycle/%s/map_label-is-not-argmax-of-current-density" % tag, "map_label differs from the arg-max of weights * current density", rep)
+    repeat_oracles(ck, g, x, tag, rep)
+
+
+def eqv(u, v):
+    """structural equality of attribute values (arrays bitwise, NaN == NaN)"""
+    if isinstance(u, np.ndarray) or isinstance(v, np.ndarray):
+        if not (isinstance(u, np.ndarray) and isinstance(v, np.ndarray)) or u.shape != v.shape or u.dtype != v.dtype:
+            return False
+        if u.dtype == object:
+            return all(eqv(a, b) for a, b in zip(u.ravel(), v.ravel()))
+        return bool(np.array_equal(u, v, equal_nan=u.dtype.kind in "fc"))
+    if isinstance(u, (list, tuple)):
+        return type(u) is type(v) and len(u) == len(v) and all(eqv(a, b) for a, b in zip(u, v))
+    if isinstance(u, dict):
+        return isinstance(v, dict) and u.keys() == v.keys() and all(eqv(u[k], v[k]) for k in u)
+    if isinstance(u, float) and isinstance(v, float) and u != u and v != v:
+        return True
+    try:
+        return type(u) is type(v) and bool(u == v)
+    except Exception:
+        return u is v
+
+
+def repeat_oracles(ck, g, x, tag, rep):
+    """Evaluation methods are observers: called twice on the same object with the same arguments they must
+    return the same value, leave every attribute of the object (parameters, hyper-parameters, caches) and
+    their arguments unchanged."""
+    import copy
+    n = x.shape[0]
+    calls = []
+    for nm in ("unweighted_likelihood", "unweighted_likelihood_", "likelihood", "mixture_likelihood", "average_log_like",
+               "_Estep", "map_label", "likelihood_under_the_prior"):
+        if hasattr(g, nm):
+            calls.append((nm, (lambda nm=nm: getattr(g, nm)(x.copy())), None))
+    try:
+        like = np.asarray(g.likelihood(x.copy()))
+    except Exception:
+        like = None
+    if like is not None and like.ndim == 2:
+        for nm in ("pop", "bic"):
+            if hasattr(g, nm) and type(g).__name__ in ("GMM", "VBGMM"):
+                calls.append((nm, (lambda nm=nm: getattr(g, nm)(like.copy())), None))
+        z = np.argmax(like[:, :max(g.k, 1)], 1).astype(np.int_)
+        if hasattr(g, "evidence") and type(g).__name__ in ("GMM", "VBGMM"):
+            calls.append(("evidence", (lambda: g.evidence(x.copy())), None))
+        if type(g).__name__ == "BGMM" and hasattr(g, "prior_means"):
+            calls.append(("probability_under_prior", (lambda: g.probability_under_prior()), None))
+            calls.append(("conditional_posterior_proba", (lambda: g.conditional_posterior_proba(x.copy(), z.copy())), None))
+            from nipy.algorithms.clustering import bgmm as _b
+            perm = _b.generate_perm(g.k)
+            calls.append(("conditional_posterior_proba(perm)", (lambda: g.conditional_posterior_proba(x.copy(), z.copy(), perm.copy())), None))
+            calls.append(("bayes_factor", (lambda: g.bayes_factor(x.copy(), np.stack([z, z], 1))), None))
+        if type(g).__name__ in ("IMM", "MixedIMM"):
+            pl = np.full(n, 0.125)
+            calls.append(("likelihood(x, plike)", (lambda: g.likelihood(x.copy(), pl.copy())), None))
+    cls = type(g).__name__
+    for nm, f, _ in calls:
+        before = copy.deepcopy(g.__dict__)
+        try:
+            with np.errstate(all="ignore"):
+                r1 = f()
+        except Exception:
+            continue                      # not applicable in this state (e.g. k == 0); exactness is checked elsewhere
+        mid = copy.deepcopy(g.__dict__)
+        with np.errstate(all="ignore"):
+            r2 = f()
+        after = g.__dict__
+        changed = sorted(k for k in set(before) | set(mid) if not eqv(before.get(k), mid.get(k)))
+        changed2 = sorted(k for k in set(mid) | set(after) if not eqv(mid.get(k), after.get(k)))
+        r = dict(rep, method=nm, state=tag)
+        if changed or changed2:
+            a = (changed or changed2)[0]
+            ck.fail("repeat/%s/%s/modifies-attribute" % (cls, nm),
+                    "%s.%s modified the object's attribute(s) %s (e.g. %s: %r -> %r); an evaluation must leave parameters, hyper-parameters and caches unchanged" % (
+                        cls, nm, changed or changed2, a, before.get(a) if changed else mid.get(a), mid.get(a) if changed else after.get(a)),
+                    dict(r, attributes=changed or changed2))
+        if not eqv(np.asarray(r1), np.asarray(r2)):
+            with np.errstate(all="ignore"):
+                dev = float(np.nanmax(np.abs(np.asarray(r1, dtype=float) - np.asarray(r2, dtype=float)) / (np.abs(np.asarray(r1, dtype=float)) + 1e-300)))
+            ck.fail("repeat/%s/%s/second-call-differs" % (cls, nm),
+                    "%s.%s called twice on the same object with the same arguments returned different values (max relative difference %.3g)" % (cls, nm, dev),
+                    dict(r, first=np.asarray(r1).tolist(), second=np.asarray(r2).tolist()))
+
+
+def imm_prior_predictive(x0, xe):
+    """density of a new point under the Normal-Wishart prior IMM.set_priors derives from the data x0
+    (mean m, shrinkage 0.01, dof dim+2, scale diag(1/var)): multivariate Student-t with nu = dof - dim + 1"""
+    import scipy.stats as st
+    dim = x0.shape[1]
+    m = x0.mean(0)
+    var = np.maximum(1e-15, ((x0 - m) ** 2).mean(0))
+    a, tau = dim + 2.0, 0.01 / 1.01
+    nu = a - dim + 1
+    return st.multivariate_t(loc=m, shape=np.diag(var) / (tau * nu), df=nu).pdf(xe)
 
 
 def rand_params(rng, ptype, k, dim):
@@ -1214,7 +1308,7 @@ def lifecycle(ck):
                 ck.fail("lifecycle/BGMM/after-sample-then-plugin/conditional_posterior_proba",
                         "after sample + plugin, conditional_posterior_proba = %r but a freshly built model with the same parameters and priors gives %r" % (got, ref),
                         dict(rep, sequence=seq, z=z.tolist()))
-        # IMM: after sampling, on whatever components it holds
+        # IMM: constant prior density, after sampling, on whatever components it holds
         im = IMM(.5, dim)
         im.set_priors(x)
         im.set_constant_densities(prior_dens=0.01)
@@ -1222,6 +1316,35 @@ def lifecycle(ck):
         ck.count(("life", "IMM", ci), bucket="lifecycle:IMM")
         if im.k > 0:
             density_oracles(ck, im, xe, "IMM/after-sample", {"class": "IMM", "dim": dim, "x": x.tolist(), "case": ci, "sequence": ["set_priors", "sample"]}, weighted=False)
+        # IMM with the prior predictive density of a new cluster (no constant density): fresh, evaluated repeatedly, after sampling
+        im = IMM(.5, dim)
+        im.set_priors(x)
+        repi = {"class": "IMM", "dim": dim, "x": x.tolist(), "eval_points": xe.tolist(), "case": ci}
+        want = imm_prior_predictive(x, xe)
+        ck.count(("life", "IMM-prior", ci), bucket="lifecycle:IMM-prior-predictive")
+        for stage in ("after-set_priors", "second-evaluation", "after-sample"):
+            if stage == "after-sample":
+                im.sample(x, niter=2, init=True)
+            got = np.asarray(im.likelihood_under_the_prior(xe.copy()))
+            ratio = got / want
+            if not np.allclose(ratio, ratio[0], rtol=1e-9):
+                ck.fail("imm-prior-predictive/not-the-student-t-shape",
+                        "IMM.likelihood_under_the_prior is not proportional to the Student-t prior predictive of the hyper-parameters set by set_priors: ratios %s" % ratio.tolist(),
+                        dict(repi, sequence=stage))
+            elif abs(ratio[0] - 1) > 1e-9:
+                ck.fail("imm-prior-predictive/not-normalised",
+                        "IMM.likelihood_under_the_prior = %r x the Student-t prior predictive density (dim %d): it does not integrate to one" % (float(ratio[0]), dim),
+                        dict(repi, sequence=stage, ratio=float(ratio[0])))
+            repeat_oracles(ck, im, xe, "IMM/%s" % stage, repi)
+        if dim == 1:
+            im = IMM(.5, 1)
+            im.set_priors(x)
+            sd = float(x.std())
+            u = np.linspace(-12.0, 12.0, 4001)                  # t = mean + sd sinh(u): heavy (1/t^3) tails
+            t = x.mean() + sd * np.sinh(u)
+            mass = quad(np.asarray(im.likelihood_under_the_prior(t[:, None])) * sd * np.cosh(u), u)
+            if abs(mass - 1) > 2e-3:
+                ck.fail("imm-prior-predictive/mass-1d", "IMM.likelihood_under_the_prior integrates to %r over the line (quadrature)" % mass, dict(repi, mass=mass))
         # ---- relabelling: conditional posterior under a permutation = conditional posterior of the relabelled model
         kk = 3 + ci % 2
         m0, p0, w0 = rand_params(rng, "full", kk, dim)
